@@ -14,7 +14,7 @@ LEVEL = "exploration"
 RULE = ("every public callable (adsb.__all__, commb.__all__, bds53, surv, allcall, common message functions, tell, "
         "bds.infer, bds.is50or60, dispatchers with extra arguments from small alphabets) x {14,28} hex digits x DF 0..31 "
         "x TC 0..31 x subtype 0..7 x payload {zeros, ones, 0x55, 0xAA, seeded} (quick: payload rotated with the index, "
-        "thorough: multiplied); oracle: only RuntimeError may escape, values only inside the documented DF/TC/subtype "
+        "thorough: multiplied); plus, per TC, all 2^11 values of ME bits 6-16 x {zero, one} tails through the decoders guarded for that TC; oracle: only RuntimeError may escape, values only inside the documented DF/TC/subtype "
         "guard, dispatchers equal the routed decoder; distinct = distinct (function, length, DF, TC, subtype)")
 ASSUMPTIONS = [
     "guard table written from the decoders' docstrings and module headers (function -> accepted DF / TC / TC29 subtype); "
@@ -171,6 +171,26 @@ def w_frames(arg):
     return acc.res()
 
 
+def w_lead(arg):
+    """all 2^11 values of ME bits 6-16 (the leading fields after the type code: subtype, movement, emergency state,
+    intent flags ...) for one DF/TC, tails zeros and ones, through every decoder whose guard accepts the TC + tell/infer."""
+    df, tc = arg
+    acc = Acc()
+    tab = [t for t in table() if (t[3] == "tc" and tc in t[4][0]) or t[0] in ("tell", "bds.infer", "adsb.oe_flag")]
+    for lead in range(2048):
+        for tail in (0, (1 << 40) - 1):
+            me = (tc << 51) | (lead << 40) | tail
+            msg = F.es(me, 0x406B90, 5, df, 0)
+            for name, f, extras, kind, guard in tab:
+                for extra in extras[:2]:
+                    acc.n += 1
+                    s = judge(name, extra, msg)
+                    if s:
+                        acc.bad(s, {"kind": "call", "name": name, "extra": list(extra), "msg": msg})
+        acc.out.add(("lead", df, tc, lead))
+    return acc.res()
+
+
 # ------------------------------------------------------------------ dispatchers
 def pos_msg(tc, oe, surface):
     e = C.encode(Fr(5231, 100), Fr(437, 100), oe, surface)
@@ -248,6 +268,8 @@ def w_dispatch(_):
 
 
 def w_any(t):
+    if t[0] == "l":
+        return w_lead(t[1])
     return w_dispatch(None) if t[0] == "d" else w_frames(t[1])
 
 
@@ -259,6 +281,7 @@ def run(ctx):
     for n in (112, 56):
         for df in range(32):
             tasks.append(("f", (n, [df], pays, ctx.thorough)))
+    tasks += [("l", (df, tc)) for df in ((17, 18) if ctx.thorough else (17,)) for tc in range(32)]
     ctx.pmap(w_any, tasks)
     ctx.cov["functions"] = len(table())
     ctx.cov["exhaustive"] = True
